@@ -44,6 +44,62 @@ func decodeCorridor(e []int) corridor {
 	return c
 }
 
+// longCorridors: structured families of corridors with 2..nmax rectangles (what the grid enumeration cannot reach:
+// k <= 5 there): arcs bulging left / right (the path bends around many corners of ONE chain in a row), staircases in
+// both directions, zigzags, funnels narrowing and widening, each with 3 x 3 general-position end points in the first
+// and last rectangle.
+func longCorridors(nmax int) func(emit func(Input)) {
+	return func(emit func(Input)) {
+		type shape func(n, i int) (l, r int)
+		shapes := []shape{
+			func(n, i int) (int, int) { d := 2*i - (n - 1); return 200 - 3*d*d/8, 400 },     // arc: left side bulges left in the middle
+			func(n, i int) (int, int) { d := 2*i - (n - 1); return 0, 200 + 3*d*d/8 },       // arc: right side bulges right at the ends
+			func(n, i int) (int, int) { d := 2*i - (n - 1); return 3 * d * d / 8, 400 },     // arc: left side bulges right in the middle
+			func(n, i int) (int, int) { d := 2*i - (n - 1); return 0, 400 - 3*d*d/8 },       // arc: right side bulges left at the ends
+			func(n, i int) (int, int) { return 20 * i, 20*i + 70 },                          // staircase to the right
+			func(n, i int) (int, int) { return 20 * (n - 1 - i), 20*(n-1-i) + 70 },          // staircase to the left
+			func(n, i int) (int, int) { return 40 * (i % 2), 100 + 40*(i%2) },               // zigzag
+			func(n, i int) (int, int) { return 7 * i, 400 - 7*i },                           // funnel, narrowing
+			func(n, i int) (int, int) { return 7 * (n - 1 - i), 400 - 7*(n-1-i) },           // funnel, widening
+			func(n, i int) (int, int) { return 30 * ((i + 1) / 2 % 2), 90 + 30*(i/2%2) },    // meander: sides step alternately
+			func(n, i int) (int, int) { return 13 * ((i * 5) % 7), 200 + 11*((i*3)%5) },     // irregular, both sides
+		}
+		for n := 2; n <= nmax; n++ {
+			for _, sh := range shapes {
+				e := []int{n}
+				ok := true
+				var L, R []int
+				for i := 0; i < n; i++ {
+					l, r := sh(n, i)
+					if r-l < 20 || (i > 0 && (max(l, L[i-1]) >= min(r, R[i-1]))) {
+						ok = false
+						break
+					}
+					L, R = append(L, l), append(R, r)
+					e = append(e, l, r, 30)
+				}
+				if !ok {
+					continue
+				}
+				w0, wk := (R[0]-L[0])*10, (R[n-1]-L[n-1])*10
+				sxs := []int{L[0]*10 + 13, L[0]*10 + w0/2 + 7, R[0]*10 - 21}
+				exs := []int{L[n-1]*10 + 17, L[n-1]*10 + wk/2 - 9, R[n-1]*10 - 11}
+				for _, sx := range sxs {
+					for _, ex := range exs {
+						for _, yy := range [][2]int{{23, (n-1)*300 + 277}, {141, (n-1)*300 + 89}} {
+							c := append(append([]int(nil), e...), sx, yy[0], ex, yy[1])
+							if decodeCorridor(c).degenerate() {
+								continue
+							}
+							emit(Input{E: c})
+						}
+					}
+				}
+			}
+		}
+	}
+}
+
 // spaceTranslated presents every corridor of sp moved by (dx, dy).
 func spaceTranslated(sp func(emit func(Input)), dx, dy int) func(emit func(Input)) {
 	return func(emit func(Input)) {
@@ -663,6 +719,43 @@ func init() {
 	inputPreds["near-epsilon-leading-coefficient"] = func(in Input, c *Cfg) bool {
 		return len(in.E) == 5 && in.E[0] == 5 && in.E[3] >= 3
 	}
+	// aligned shallow notch: two non-adjacent rectangles have the same left (right) side coordinate and a rectangle between
+	// them reaches further in by d, with d at most 1/8 of the vertical distance h between the two aligned corners. A
+	// straight vertical piece between the two aligned corners then passes exactly through both of them — which the
+	// fitter's containment test forgives as "touching a vertex" (squared distance < epsilon1) — and runs through the notch,
+	// outside the corridor; a deep notch makes the path so much longer than the piece that the fitter's length test
+	// rejects the piece first.
+	inputPreds["aligned-shallow-notch"] = func(in Input, c *Cfg) bool {
+		if len(in.E) < 8 || (len(in.E) != 5+3*in.E[0] && len(in.E) != 7+3*in.E[0]) {
+			return false
+		}
+		cr := decodeCorridor(in.E)
+		k := len(cr.L)
+		for i := 0; i < k; i++ {
+			for j := i + 2; j < k; j++ {
+				h := cr.Y[j] - cr.Y[i+1]
+				if cr.L[i] == cr.L[j] {
+					d := 0.0
+					for m := i + 1; m < j; m++ {
+						d = math.Max(d, cr.L[m]-cr.L[i])
+					}
+					if d > 0 && d <= h/8 {
+						return true
+					}
+				}
+				if cr.R[i] == cr.R[j] {
+					d := 0.0
+					for m := i + 1; m < j; m++ {
+						d = math.Max(d, cr.R[i]-cr.R[m])
+					}
+					if d > 0 && d <= h/8 {
+						return true
+					}
+				}
+			}
+		}
+		return false
+	}
 	inputPreds["degenerate-position"] = func(in Input, c *Cfg) bool {
 		if len(in.E) < 8 || (len(in.E) != 5+3*in.E[0] && len(in.E) != 7+3*in.E[0]) {
 			return false
@@ -683,6 +776,10 @@ func init() {
 			{Name: "general-k4", Space: corridorSpace(4, grid5, []int{10}, true), Eval: evalC19, BudgetS: 5, HeapMB: 256,
 				Bound: "every well-formed stack of 1..4 rectangles with sides on a 5-value grid (equal edges, widening and narrowing on both sides included) x 6 start x 6 end positions in general position (not collinear with two corridor vertices or with a vertex and the other end point)"},
 		}
+		ps = append(ps, &Pass{Name: "long-corridors", Space: longCorridors(tierPick(tier, 24, 40)), Eval: evalC19, BudgetS: 5, HeapMB: 256,
+			Bound: fmt.Sprintf("11 structured families of corridors (arcs bulging either way on either side, staircases, zigzag, funnels, meander, irregular) with 2..%d rectangles x 3 x 3 x 2 general-position end points: paths that bend around many corners of one chain in a row", tierPick(tier, 24, 40))})
+		ps = append(ps, &Pass{Name: "general-k3-tall", Space: corridorSpaceD(3, grid5, []int{10, 70}, true, false), Eval: evalC19, BudgetS: 5, HeapMB: 256,
+			Bound: "every well-formed stack of 1..3 rectangles on the 5-value grid with heights from {10, 70} x 6 x 6 general-position end points"})
 		ps = append(ps, &Pass{Name: "general-k3-wide", Space: corridorSpaceD(3, []int{0, 60, 120, 180, 240}, []int{10}, true, true), Eval: evalC19, BudgetS: 5, HeapMB: 256,
 			Bound: "every well-formed stack of 1..3 rectangles with sides on {0,60,120,180,240} and height 10 (shallow segments that leave a narrow first/last rectangle sideways) x 15 x 15 general-position end points"})
 		if tier == "thorough" {
@@ -705,6 +802,10 @@ func init() {
 		}
 		ps = append(ps, &Pass{Name: "fit-k3-translated", Space: spaceTranslated(corridorSpaceD(3, grid5, []int{10}, true, true), 57, 23), Eval: evalC20Fit, BudgetS: 5, HeapMB: 256,
 			Bound: "every corridor of 1..3 rectangles on the 5-value grid (rectangles that share a side coordinate included) x 15 x 15 general-position end points, moved away from the origin by (57, 23) — where a corridor inside a layout lies"})
+		ps = append(ps, &Pass{Name: "fit-long-corridors", Space: longCorridors(tierPick(tier, 24, 40)), Eval: evalC20Fit, BudgetS: 10, HeapMB: 256,
+			Bound: fmt.Sprintf("the 11 structured families of long corridors of C19 (2..%d rectangles): spline fitted on every path with >= 3 points", tierPick(tier, 24, 40))})
+		ps = append(ps, &Pass{Name: "fit-k3-tall", Space: corridorSpaceD(3, grid5, []int{10, 70}, true, true), Eval: evalC20Fit, BudgetS: 5, HeapMB: 256,
+			Bound: "every well-formed stack of 1..3 rectangles on the 5-value grid with heights from {10, 70} (tall narrow rectangles next to flat wide ones: a curve that bulges sideways meets a VERTICAL wall first) x 15 x 15 general-position end points"})
 		// wide corridors: horizontal sides much longer than the rectangles are high, so that a path piece runs a long way
 		// next to a side whose two corners both lie beyond the piece's own horizontal extent (the containment test must
 		// still see that side), and end points close to a horizontal side
